@@ -313,6 +313,10 @@ def write_evidence(run, violations):
 
 def finish(run):
     prop = run.prop
+    if os.environ.get("VERIF_DUMP"):
+        # development aid: every oracle failure and disagreement of this run
+        with open(os.environ["VERIF_DUMP"], "w") as fh:
+            json.dump({"failures": run.failures, "disagreements": run.disagreements}, fh, indent=1, default=str)
     violations = 0
     lines = []
     if run.failures:
@@ -328,6 +332,22 @@ def finish(run):
         violations = len(run.failures)
     else:
         indomain = [d for d in run.disagreements if d["in_domain"]]
+        context = [d for d in run.disagreements if not d["in_domain"]]
+        if not (run.build_broken or indomain) and context and hasattr(prop, "search") and getattr(prop, "SEARCH_CONTEXT", False):
+            # model and code differ only on inputs outside the theorems' hypotheses: the theorems still transfer on their own
+            # domain, but the change may have broken the property elsewhere in its quantifier: look for a failing input on the real
+            # code; none found = no alarm (DESIGN.md section 3, in-domain versus context disagreements)
+            before = len(run.failures)
+            try:
+                prop.search(run, context)
+            except Exception as e:
+                run.notes.append("context search failed: %r" % (e,))
+            if len(run.failures) > before:
+                found = run.failures[before]
+                path = write_replay(run, dict(kind="failing-input", clause=found["clause"], case=found["case"],
+                                              detail=found["detail"], found_by="search after context disagreements"))
+                lines.append("VIOLATION property=%s replay=%s" % (run.pid, path))
+                violations = len(run.failures)
         if run.build_broken or indomain:
             # the proof obligation or the correspondence no longer checks: search the real code for a failing input
             found = None
@@ -388,8 +408,24 @@ def main(prop, argv):
             run.theorems = re.findall(r"^theorem\s+([A-Za-z0-9_.']+)", strip_comments(open(os.path.join(LEAN, *prop.MODULE.split(".")) + ".lean").read()), flags=re.M)
         if os.path.exists(DRIVER):
             run.model = Model()
+        cov = None
+        if os.environ.get("VERIF_IMPLCOV"):
+            # development aid: which lines of /repo/lasio the correspondence and oracle inputs of this check execute
+            import coverage
+            cov = coverage.Coverage(include=[os.path.join(os.path.realpath(REPO), "lasio", "*")], branch=False, data_file=None)
+            cov.start()
         try:
-            prop.run(run)
+            try:
+                prop.run(run)
+            finally:
+                if cov is not None:
+                    cov.stop()
+                    rep = {}
+                    for f in sorted(cov.get_data().measured_files()):
+                        _, executable, _, missing, _ = cov.analysis2(f)
+                        rep[os.path.basename(f)] = {"executable": len(executable), "missing": missing}
+                    with open(os.environ["VERIF_IMPLCOV"] + "." + run.pid + ".json", "w") as fh:
+                        json.dump(rep, fh)
         except InfraError:
             raise
         except Exception as e:
